@@ -1,4 +1,6 @@
 fn main() {
-    eprintln!("MACHINERY-ERROR: check c14 not built yet");
-    std::process::exit(2);
+    let name = std::env::args().nth(1).unwrap();
+    let spec = vpe4::find_spec(&name).unwrap();
+    let fx = (spec.make)().unwrap();
+    println!("{}", vpcore::serde_json::to_string(&fx.honest).unwrap());
 }
